@@ -9,6 +9,7 @@ def dispatch (op : String) (args : List String) : String :=
   | "affine" => Geom.handleAffine args
   | "mat" => Geom.handleMat args
   | "vol" => Geom.handleVol args
+  | "voltree" => Geom.handleVolTree args
   | _ => "bad-op"
 
 partial def loop (h : IO.FS.Stream) (out : IO.FS.Stream) : IO Unit := do
